@@ -195,6 +195,7 @@ func (BridgeEngine) GenConfig(rng *rand.Rand, prop string, tier string) RunConfi
 		rc.Weights["empty"] *= 3
 		rc.Faults = appendUniq(rc.Faults, "crash-confirms")
 	case "C13":
+		rc.Faults = removeStr(rc.Faults, "conflicting-claim")
 		rc.Weights["churn"] *= 4
 		rc.Weights["jump"] *= 3
 		rc.Faults = appendUniq(rc.Faults, "membership")
@@ -202,11 +203,22 @@ func (BridgeEngine) GenConfig(rng *rand.Rand, prop string, tier string) RunConfi
 		rc.Weights["churn"] *= 2
 		rc.Knobs["boundary-stakes"] = "1"
 	case "C05", "C06", "C04":
+		rc.Faults = removeStr(rc.Faults, "conflicting-claim") // a lying quorum invalidates what these oracles assume about the external chain
 		rc.Weights["send"] *= 2
 		rc.Weights["batch"] *= 2
 		rc.Weights["relay"] *= 2
 	}
 	return rc
+}
+
+func removeStr(l []string, s string) []string {
+	var out []string
+	for _, x := range l {
+		if x != s {
+			out = append(out, x)
+		}
+	}
+	return out
 }
 
 func appendUniq(l []string, s string) []string {
@@ -925,6 +937,12 @@ func (e BridgeEngine) applyGov(r *Run, s *Step, o *Outcome) {
 		msgs = append(msgs, &cctypes.MsgUpdateParams{ChainName: c.Name, Authority: auth, Params: p})
 	case "toggle":
 		msgs = append(msgs, &erc20types.MsgToggleTokenConversion{Authority: auth, Token: s.A.Str("token")})
+	case "register_erc20":
+		var aliases []string
+		if s.A.Str("aliases") != "" {
+			aliases = strings.Split(s.A.Str("aliases"), ",")
+		}
+		msgs = append(msgs, &erc20types.MsgRegisterERC20{Authority: auth, Erc20Address: s.A.Str("token"), Aliases: aliases})
 	case "switch":
 		var list []string
 		if s.A.Str("list") != "" {
